@@ -61,6 +61,31 @@ theorem marked_only_after_last_flush (chunks : List Nat) (fault : Option Fault) 
     · intro st hst _; rw [h1] at hst; cases hst; exact ⟨h3, h5⟩
     · intro e st hst; rw [h1] at hst; cases hst
 
+/-- In every outcome — completed, exception, or death at any call, before or after that call took
+    effect — the stream never counts as flushed what it has not accepted: flushed bytes ≤ accepted
+    bytes.  (Together with `marked_only_after_last_flush`: a recorded upload has *all* bytes flushed,
+    an unrecorded one has at most the accepted prefix.) -/
+theorem flushed_le_accepted (chunks : List Nat) (fault : Option Fault) :
+    (outcomeState (runUpload chunks fault)).flushedBytes ≤ (outcomeState (runUpload chunks fault)).bytes := by
+  unfold runUpload
+  refine exec_preserves (fun st => st.flushedBytes ≤ st.bytes) ?_ ?_ fault _ {} (by simp)
+  · intro st c h; cases c <;> simp [applyIO] <;> omega
+  · intro st h; exact h
+
+/-- The bookkeeping step is the only statement that sets the flag and it is last: in every outcome
+    the number of completed I/O calls never exceeds the calls of the transmission. -/
+theorem ioDone_le_calls (chunks : List Nat) (fault : Option Fault) :
+    (outcomeState (runUpload chunks fault)).ioDone ≤ (sendCalls chunks).length := by
+  by_cases hin : ∃ f, fault = some f ∧ f.at_ < (sendCalls chunks).length
+  · obtain ⟨f, rfl, hlt⟩ := hin
+    obtain ⟨st', h1, _, h3⟩ := fault_stops_there chunks f hlt
+    rw [h1]; simp only [outcomeState]; omega
+  · have h : ∀ f, fault = some f → (sendCalls chunks).length ≤ f.at_ := by
+      intro f hf
+      exact Nat.le_of_not_lt (fun hc => hin ⟨f, hf, hc⟩)
+    obtain ⟨st', h1, _, h3, _⟩ := no_fault_marks chunks fault h
+    rw [h1]; simp only [outcomeState]; omega
+
 /-- `send` makes exactly one leading flush and a write+flush per escape code. -/
 theorem io_call_count (chunks : List Nat) : (sendCalls chunks).length = 1 + 2 * chunks.length :=
   sendCalls_length chunks
